@@ -2121,9 +2121,15 @@ func (f *fragment) bulkImportMutex(rowIDs, columnIDs []uint64) error {
 	// colSet, but we maintain clearIdx as we loop through row and col ids so
 	// that we know how many bits we need to clear and how far through columnIDs
 	// we are.
-	clearIdx := 0
+	//
+	// If a column is repeated within the import then only the last row given
+	// for it matters, so first determine the final row for every column.
+	finalRow := make(map[uint64]uint64)
 	for i := range rowIDs {
-		rowID, columnID := rowIDs[i], columnIDs[i]
+		finalRow[columnIDs[i]] = rowIDs[i]
+	}
+	clearIdx := 0
+	for columnID, rowID := range finalRow {
 		if existingRowID, found, err := f.mutexVector.Get(columnID); err != nil {
 			return errors.Wrap(err, "getting mutex vector data")
 		} else if found && existingRowID != rowID {
